@@ -131,6 +131,12 @@ def make_frame(ctx, pu, kind, tagged, npay):
          list(ctx.bytes('ipsrc', 4)) + list(ctx.bytes('ipdst', 4)) + opts
     b += [0x08, 0x00] + ip + seg
     f = Frame(b, tagged, 'ip', l4, 5 + len(opts) // 4)
+  elif kind == 'qinq':
+    # a second 802.1Q tag behind the outer one (tagged=True gives the outer tag): for the switch the inner tag is payload - strip_vlan removes
+    # exactly one tag, set_vlan_* rewrite the outer one
+    tci2 = ctx.int('tci2', 0, 0xffff)
+    b += [0x81, 0x00] + be(tci2, 2) + [0x08, 0x01] + pay
+    f = Frame(b, tagged, 'other', None)
   elif kind == 'llc_pad':
     # 802.3 frame (length field, LLC header, payload) padded to a longer frame, like a BPDU padded to the Ethernet minimum: the length field
     # counts the LLC header and payload only; the padding travels with the frame
@@ -333,6 +339,9 @@ def obligations(tier):
       cases.append(dict(kind=k, tagged=t, codes=[c, A_OUT]))
     cases.append(dict(kind=k, tagged=t, codes=[A_OUT]))
     cases.append(dict(kind=k, tagged=t, codes=[A_ENQ]))
+  # stacked 802.1Q tags
+  for c in (A_STRIP, A_VID) + ((A_PCP, A_DLDST) if thorough else ()): cases.append(dict(kind='qinq', tagged=True, codes=[c, A_OUT]))
+  cases.append(dict(kind='qinq', tagged=True, codes=[A_STRIP, A_OUT, A_STRIP, A_OUT] if thorough else [A_OUT]))
   # padded 802.3 / LLC frames
   for c in (A_DLDST, A_VID) + ((A_DLSRC, A_STRIP) if thorough else ()): cases.append(dict(kind='llc_pad', tagged=False, codes=[c, A_OUT]))
   cases.append(dict(kind='llc_pad', tagged=False, codes=[A_OUT]))
